@@ -16,6 +16,8 @@ struct Counters {
     wakes: AtomicI64,
     ended: AtomicBool,
     after_end: AtomicI64,
+    /// uses (clone / wake / release) of a clone that had already been released
+    used_released: AtomicI64,
 }
 
 impl Counters {
@@ -26,28 +28,47 @@ impl Counters {
     }
 }
 
+/// Every clone of the caller's waker is its own node (leaked, exempt from the allocation
+/// accounting), so that a use of one particular clone after *that clone* was released is visible
+/// without undefined behaviour - with a real reference-counted waker it would be a use after free.
+struct Node {
+    c: &'static Counters,
+    alive: AtomicBool,
+}
+
+fn new_node(c: &'static Counters) -> *const () {
+    verifkit::alloc::exempt(|| Box::leak(Box::new(Node { c, alive: AtomicBool::new(true) }))) as *const Node as *const ()
+}
+
+fn node(d: *const ()) -> &'static Node {
+    let n = unsafe { &*(d as *const Node) };
+    n.c.touch();
+    if !n.alive.load(SeqCst) {
+        n.c.used_released.fetch_add(1, SeqCst);
+    }
+    n
+}
+
 static VT: RawWakerVTable = RawWakerVTable::new(
     |d| {
-        let c = unsafe { &*(d as *const Counters) };
-        c.touch();
-        c.clones.fetch_add(1, SeqCst);
-        RawWaker::new(d, &VT)
+        let n = node(d);
+        n.c.clones.fetch_add(1, SeqCst);
+        RawWaker::new(new_node(n.c), &VT)
     },
     |d| {
-        let c = unsafe { &*(d as *const Counters) };
-        c.touch();
-        c.wakes.fetch_add(1, SeqCst);
-        c.drops.fetch_add(1, SeqCst);
+        let n = node(d);
+        n.c.wakes.fetch_add(1, SeqCst);
+        n.c.drops.fetch_add(1, SeqCst);
+        n.alive.store(false, SeqCst);
     },
     |d| {
-        let c = unsafe { &*(d as *const Counters) };
-        c.touch();
-        c.wakes.fetch_add(1, SeqCst);
+        let n = node(d);
+        n.c.wakes.fetch_add(1, SeqCst);
     },
     |d| {
-        let c = unsafe { &*(d as *const Counters) };
-        c.touch();
-        c.drops.fetch_add(1, SeqCst);
+        let n = node(d);
+        n.c.drops.fetch_add(1, SeqCst);
+        n.alive.store(false, SeqCst);
     },
 );
 
@@ -103,6 +124,12 @@ fn check_counts(c: &Counters, sh: &Shared, when: &str) -> Result<(), Fail> {
         "wake-count",
         "{when}: the original waker was woken {wk} times, {} wakes were issued on foreign wakers",
         sh.wakes_expected
+    );
+    ensure!(
+        c.used_released.load(SeqCst) == 0,
+        "used-after-release",
+        "{when}: a clone of the caller's waker was used (cloned, woken or released again) {} times after that very clone had been released",
+        c.used_released.load(SeqCst)
     );
     ensure!(
         dr <= cl,
@@ -268,7 +295,7 @@ fn body(case: &Case) -> Result<(usize, usize, usize, usize), Fail> {
     let counters: &'static Counters = verifkit::alloc::exempt(|| Box::leak(Box::new(Counters::default())));
     let shared = Arc::new(Mutex::new(Shared::default()));
     let script = Script { phases: case.phases.clone(), shared: shared.clone(), counters, poll_no: 0 };
-    let w0 = std::mem::ManuallyDrop::new(unsafe { Waker::from_raw(RawWaker::new(counters as *const Counters as *const (), &VT)) });
+    let w0 = std::mem::ManuallyDrop::new(unsafe { Waker::from_raw(RawWaker::new(new_node(counters), &VT)) });
     let mut cx = Context::from_waker(&w0);
 
     // one poller per kind, all through opaque cglue objects
